@@ -177,8 +177,11 @@ def _run_scenario(sc, budget=200000):
     ndata = [0]
     ids = {}
     try:
+        frozen = []
+
         def log(e):
-            trace.append(e)
+            if not frozen:   # (what happens when the harness tears the run down after End is no part of the execution)
+                trace.append(e)
 
         def on_conn(c):
             if c.kind == "ctl":
@@ -266,6 +269,7 @@ def _run_scenario(sc, budget=200000):
             if kind in ("CRE", "fatal") or op == "quit":
                 break
         log({"ev": "End", "blocked": blocked})
+        frozen.append(True)
         out["plan"] = pup.realised
         out["errors"] = [str(e.get("message")) + " " + repr(e.get("exception")) for e in loop.errors]
     except watchdog.HardHang:
